@@ -113,18 +113,22 @@ Theorem resume_suspend_is_identity :
 Proof. exact ProofsSeg.resume_suspend_is_identity. Qed.
 End C09_Segments.
 
-(* 8. The body language (its core: everything except for-of / yield*, whose inner generators are separate objects).
+(* 8. The body language: everything except hand-written iterators as for-of / yield* operands (coreS); for-of and yield*
+      over inner generators of the language, re-entrant calls, try/catch/finally, loops are included.
       A suspended body is DATA — the locals and an explicit stack of frames (pending operands of partially evaluated
       expressions, loop counters, pending catch / finally blocks, the completion a running finally block will
-      continue with).  For every core body, every frame stack K realising handlers H, every continuation k realised by
-      K, the machine started on the statement unfolds to the direct (continuation-passing) semantics; in particular at
-      every yield, resuming the saved (locals, frames) with ANY input — a value, a throw, a return — continues exactly
-      as the un-suspended direct evaluation continues with that input (mt_yield inside mtree). *)
+      continue with).  A running inner generator occupies the frames above a boundary frame — its stack segment; when
+      it yields, the segment is cut off at the boundary and stored inside a frame of the generator below (for-of: next to
+      the loop body; yield*: the outer generator suspends around it), and resumption appends it again on a new
+      boundary — the same discipline as goja's stack-segment suspend/resume (theorem 6).  For every such body the
+      machine unfolds to the direct (continuation-passing) semantics; in particular at every yield, resuming the saved
+      data with ANY input — a value, a throw, a return — continues exactly as the un-suspended direct evaluation
+      continues with that input (mt_yield inside mtree), including forwarding through yield* and IteratorClose. *)
 Theorem machine_matches_direct : forall s, coreS s = true ->
   mtree (mload s) (dS false s env0 gen_handlers (fun r => TDone VUndef r)).
 Proof. exact ProofsMach.machine_matches_direct. Qed.
 
-(* 9. resume_deterministic / locals_survive, as an equation between executable runs: for every core body and EVERY
+(* 9. resume_deterministic / locals_survive, as an equation between executable runs: for every such body and EVERY
       history h of resumptions, the machine — suspending to data at each yield and resuming that data with the next
       element of h — observes (side-effect log, yielded / returned / thrown value, locals) exactly what the direct
       evaluation observes when each yield is answered by h's values; fuel only has to be large enough. *)
